@@ -48,7 +48,9 @@ Inductive cs_check := CsAny | CsAlnum.
    KExpire     Expire::parse: nothing or a u32
    KKeepalive  TcpKeepalive::parse: nothing or a u16
    KCookie     Cookie::parse: 8 octets client cookie, optionally 8..32 octets server cookie *)
-Inductive chk_kind := KBitmap | KSvcParams | KEven | KExpire | KKeepalive | KCookie.
+Inductive chk_kind := KBitmap | KSvcParams | KEven | KExpire | KKeepalive | KCookie
+  | KMult (k : nat)      (* a multiple of k octets: ipv4hint 4, ipv6hint 16 *)
+  | KGroups.             (* tls-supported-groups: even and not empty *)
 
 Inductive field :=
 | FNum (w : nat)
@@ -162,6 +164,8 @@ Definition rest_check (k : chk_kind) (b : bytes) : option N :=
   | KEven => if Nat.even (length b) then None else Some E_FORM
   | KExpire => match length b with 0%nat | 4%nat => None | 1%nat | 2%nat | 3%nat => Some E_SHORT | _ => Some E_FORM end
   | KKeepalive => match length b with 0%nat | 2%nat => None | 1%nat => Some E_SHORT | _ => Some E_FORM end
+  | KMult k => if (length b mod k =? 0)%nat then None else Some E_FORM
+  | KGroups => if negb (length b =? 0)%nat && Nat.even (length b) then None else Some E_FORM
   | KCookie =>
       let n := len b in
       if n <? 8 then Some E_SHORT
@@ -367,9 +371,13 @@ Definition pname_dec : decoder := decode_name.
    is set (Ipseckey gateway).  The flag is only set by a pointer that follows
    at least one label: a name that starts with a pointer is re-based at the
    pointer target and counts as uncompressed. *)
-Definition pname_nc_dec : decoder := fun m pos lim =>
+(* strict: the caller additionally demands that the name occupied as many
+   octets as its uncompressed form has (parser.pos() - start == compose_len),
+   which also refuses the pointer-only form. *)
+Definition pname_nc_dec (strict : bool) : decoder := fun m pos lim =>
   do p <- parse_ref m pos lim;
   if pn_compressed p then Err E_FORM
+  else if strict && negb (pn_end p - pos =? pn_len p) then Err E_FORM
   else do r <- pname_labels m p; Ok (fst r, pn_end p).
 
 (* an uncompressed reader (Names.decode_abs on the octets of [pos, lim)) *)
